@@ -87,6 +87,7 @@ pub fn shape_name(s: Shape) -> &'static str {
         Shape::CapSpecial => "cap_special",
         Shape::Placement => "placement",
         Shape::Grid => "grid",
+        Shape::Threshold => "threshold",
     }
 }
 pub fn shape_from(s: &str) -> Option<Shape> {
@@ -99,6 +100,7 @@ pub fn shape_from(s: &str) -> Option<Shape> {
         "cap_special" => Some(Shape::CapSpecial),
         "placement" => Some(Shape::Placement),
         "grid" => Some(Shape::Grid),
+        "threshold" => Some(Shape::Threshold),
         _ => None,
     }
 }
